@@ -48,8 +48,13 @@ func asciiToInt(bts []byte) (ret int, err error) {
 	if n = len(bts); n < 1 {
 		return 0, fmt.Errorf("converting empty bytes to int")
 	}
+	if n > 9 {
+		// More digits than any HTTP version or status needs; refusing them
+		// keeps the sum below from overflowing int.
+		return 0, fmt.Errorf("%s is too long to be converted to int", string(bts))
+	}
 	for i := 0; i < n; i++ {
-		if bts[i]&0xf0 != 0x30 {
+		if bts[i]&0xf0 != 0x30 || bts[i] > '9' {
 			return 0, fmt.Errorf("%s is not a numeric character", string(bts[i]))
 		}
 		ret += int(bts[i]&0xf) * pow(10, n-i-1)
